@@ -255,6 +255,13 @@ def run(ctx):
     ctx.need(instr_e[0] == "local", "named local holding the fetched word")
     il = instr_e[1]
     fdefs = rl.defs().get(il, [])
+    # a word handed on through plain copies (the result of a fetch helper, once inlined) is the word that was read at their source
+    for _hop in range(4):
+        if len(fdefs) == 1 and fdefs[0][0] == "stmt" and fdefs[0][3]["r"]["k"] == "use" and fdefs[0][3]["r"]["a"].get("p") is not None \
+                and place_is_local(fdefs[0][3]["r"]["a"]["p"]) and len(rl.defs().get(fdefs[0][3]["r"]["a"]["p"]["l"], [])) == 1:
+            fdefs = rl.defs().get(fdefs[0][3]["r"]["a"]["p"]["l"], [])
+        else:
+            break
     # the word is read by indexing the memory, or through the accessor RunState::mem(addr) (= self.mem[addr])
     via_accessor = len(fdefs) == 1 and fdefs[0][0] == "call" and callee_of(fdefs[0][3]) == RT + "RunState::mem"
     ctx.need(len(fdefs) == 1 and (fdefs[0][0] == "stmt" or via_accessor), "single fetch statement")
@@ -564,6 +571,48 @@ def run(ctx):
             r = _pipe.elements(prog, tr, st)
             if r is not None:
                 return st, r
+        # ... or a chain drained by a `for` loop whose body prints the item it was handed, on every round
+        lps = kit.loops(tr)
+        for b in sorted(reg):
+            t = tr.term(b)
+            if t["k"] != "call":
+                continue
+            st = _pipe.chain_of_loop(prog, tr, t)
+            if st is None or t.get("t") is None:
+                continue
+            sw_ = tr.term(t["t"])
+            if sw_["k"] != "switch":
+                continue
+            some_t = {v: x for v, x in sw_["targets"]}.get(1)
+            heads = [h for h, lp in lps.items() if b in lp[0]]
+            if some_t is None or not heads:
+                continue
+            dl = t["dest"]["l"]
+            def is_item(op):
+                """the operand is the payload of the Some this `next` call returned, handed on through plain copies"""
+                p_ = op.get("p")
+                for _hop in range(5):
+                    if p_ is None:
+                        return False
+                    pr_ = p_.get("pr", [])
+                    if p_["l"] == dl:
+                        return len(pr_) == 2 and isinstance(pr_[0], dict) and pr_[0].get("n", pr_[0].get("dc")) == "Some" and isinstance(pr_[1], dict) and pr_[1].get("f") == 0
+                    if pr_:
+                        return False
+                    sd_ = tr.single_def(p_["l"])
+                    if not (sd_ and sd_[0] == "stmt" and sd_[3]["r"]["k"] == "use"):
+                        return False
+                    p_ = sd_[3]["r"]["a"].get("p")
+                return False
+            body = tr.reachable(some_t, avoid={b})
+            pr = [bb for bb in sorted(body) if tr.term(bb)["k"] == "call" and (callee_of(tr.term(bb)) or "").endswith("output::Output::print")]
+            if len(pr) != 1 or not is_item(tr.term(pr[0])["args"][1]):
+                continue
+            if b in tr.reachable(some_t, avoid={pr[0]}):
+                continue          # a round can come back for the next item without printing this one
+            r = _pipe.elements(prog, tr, st)
+            if r is not None:
+                return st, r
         return None
 
     def strip_casts(e):
@@ -578,7 +627,7 @@ def run(ctx):
         return e[0] == "cast" and e[2] == "char" and e[3][0] == "cast" and e[3][2] == "u8"
     for vec, nm in ((0x21, "OUT"), (0x22, "PUTS")):
         ps = printed(vec)
-        if not ps and nm == "PUTS":
+        if nm == "PUTS" and not (len(ps) == 1 and low_byte(ps[0])):
             pl = pipeline(vec)
             if pl is not None:
                 ps = list(pl[1][0])          # what reaches the printing consumer for one source item
@@ -632,8 +681,8 @@ def run(ctx):
     for vec, nm in ((0x22, "PUTS"), (0x24, "PUTSP")):
         reg = kit.dominated_region(tr, tg[vec])
         prints = [b for b in sorted(reg) if tr.term(b)["k"] == "call" and (callee_of(tr.term(b)) or "").endswith("output::Output::print")]
-        if not prints:
-            pl = pipeline(vec)
+        pl = pipeline(vec)
+        if not prints or (pl is not None and pl[1][2] is not None and pl[1][2][2] == "for"):
             if pl is not None:
                 # iterator-chain form: the chain ends `.take_while(|c| c != 0).for_each(print)`: the stop test is the last stage before the
                 # consumer, it tests the very elements that are printed against zero, nothing filters in between, and the consumer prints
@@ -656,7 +705,9 @@ def run(ctx):
                             badp.append("the stop test `%s` is not `printed character != 0`" % expr_str(pr_, 80))
                     if len(preds) != len(elems):
                         badp.append("the stop test does not see every printed character")
-                if sink is not None:
+                if sink is not None and sink[2] == "for":
+                    pass          # the loop body was matched in pipeline(): one print of the item handed over, on every round
+                elif sink is not None:
                     sf_ = sink[0]
                     pa = [sf_.expr(tt["args"][1], 8) for bb, tt, c_ in sf_.calls() if c_ and c_.endswith("output::Output::print")]
                     def is_param(x):
